@@ -112,6 +112,10 @@ func (dm *DMap) putOnReplicaFragment(e *env) error {
 	e.fragment = f
 	f.Lock()
 	defer f.Unlock()
+	if !dm.isFragmentRegistered(part, f) {
+		// Removed by the janitor between the lookup and the lock. Start over.
+		return dm.putOnReplicaFragment(e)
+	}
 
 	err = f.storage.PutRaw(e.hkey, e.value)
 	if errors.Is(err, storage.ErrKeyTooLarge) {
@@ -302,6 +306,10 @@ func (dm *DMap) putOnCluster(e *env) error {
 	e.fragment = f
 	f.Lock()
 	defer f.Unlock()
+	if !dm.isFragmentRegistered(part, f) {
+		// Removed by the janitor between the lookup and the lock. Start over.
+		return dm.putOnCluster(e)
+	}
 
 	if err = dm.checkPutConditions(e); err != nil {
 		return err
